@@ -18,6 +18,13 @@ def _is_forall(e):
     return z3.is_quantifier(e) and e.is_forall()
 
 
+def _is_universal(e):
+    """forall, or an implication whose conclusion is universal (guarded universal fact)"""
+    while z3.is_implies(e):
+        e = e.arg(1)
+    return _is_forall(e)
+
+
 class Peeled:
     __slots__ = ('consts', 'guards', 'body')
 
@@ -121,7 +128,7 @@ def has_var(e):
     return False
 
 
-def instantiate(hyps, goal, max_terms=10, max_instances=4000, rounds=3):
+def instantiate(hyps, goal, max_terms=10, max_instances=4000, rounds=3, focused=False, extra_terms=()):
     """returns (ground_hyps, core_goal, n_instances, leftover): hyps with every top-level universal replaced by its
     instances over the candidate terms; goal skolemised.  Several rounds: terms exposed by the instances of one round are
     candidates in the next (needed for chains of contract axioms)."""
@@ -131,8 +138,8 @@ def instantiate(hyps, goal, max_terms=10, max_instances=4000, rounds=3):
     for h in hyps:
         flat.extend(conjuncts(h))
     ground = [h for h in flat if not _contains_quantifier(h)]
-    quant = [peel(h, 'ph') for h in flat if _is_forall(h)]
-    mixed = [h for h in flat if not _is_forall(h) and _contains_quantifier(h)]
+    quant = [peel(h, 'ph') for h in flat if _is_universal(h)]
+    mixed = [h for h in flat if not _is_universal(h) and _contains_quantifier(h)]
     cand = ground_terms(goal_side)
     for c in g.consts:
         lst = cand.setdefault(str(c.sort()), [])
@@ -152,7 +159,12 @@ def instantiate(hyps, goal, max_terms=10, max_instances=4000, rounds=3):
                     grew = True
         return grew
 
-    extend(cand, ground, max_terms)
+    for t in extra_terms:
+        lst = cand.setdefault(str(t.sort()), [])
+        if not any(t.eq(x) for x in lst):
+            lst.append(t)
+    if not focused:
+        extend(cand, ground, max_terms)
     # plain constants first (loop indices, skolems), compound terms after: pools are cut from the end
     for k in cand:
         cand[k].sort(key=lambda t: 0 if (z3.is_app(t) and t.num_args() == 0 and not z3.is_int_value(t)) else 1)
@@ -200,10 +212,11 @@ def instantiate(hyps, goal, max_terms=10, max_instances=4000, rounds=3):
         fresh_q = []
         for inst in new_instances:
             for cj in conjuncts(inst):
-                if _is_forall(cj):
+                if _is_universal(cj):
                     fresh_q.append(peel(cj, 'ph'))
         quant.extend(fresh_q)
-        grew = extend(cand, [i for i in new_instances if not _contains_quantifier(i)], max_terms + 4 * (rnd + 1))
+        grew = extend(cand, [i for i in new_instances if not _contains_quantifier(i)],
+                      (max_terms + 4 * (rnd + 1)) if not focused else max(len(x) for x in cand.values()) + 3)
         if not grew and not fresh_q:
             break
         if total >= max_instances:
